@@ -1791,6 +1791,17 @@ fn c12_modify(tc: &TransCtx, m: &Modify, sink: &mut Sink) {
             sink.v("C12", "C12/invalid-address-installed".into(), a.clone());
         }
     }
+    // C05: the role lists are the configured ones (what accepted configuration requests installed)
+    if let Some(v) = &m.executors {
+        if v != &post.executors {
+            sink.v("C05", "C05/modify_contract/executor-list-not-as-configured".into(), format!("accepted request installs {v:?}, stored {:?}", post.executors));
+        }
+    }
+    if let Some(v) = &m.approvers {
+        if v != &post.approvers {
+            sink.v("C05", "C05/modify_contract/approver-list-not-as-configured".into(), format!("accepted request installs {v:?}, stored {:?}", post.approvers));
+        }
+    }
     // the book is untouched by a configuration change (reported under C11)
     if tc.st.book.asks != post_book.asks || tc.st.book.bids != post_book.bids {
         sink.v("C11", "C11/frame/modify_contract/book-changed".into(), String::new());
